@@ -75,3 +75,29 @@ Fixpoint after_bar (id : N) (o : list ev) : list ev :=
   | Bar b :: r => if b =? id then r else after_bar id r
   | _ :: r => after_bar id r
   end.
+
+(* ---------- split assignment rounds (HandleAssignSplits -> splitsWereAssigned -> loop) ----------
+   The channel has one slot. A HandleAssignSplits call returns (acknowledges the round to the job) only once
+   its round is in the slot; while the slot is full the caller stays parked and nothing is acknowledged.
+   The loop takes the slot and hands the round to reader.AssignSplits. *)
+Inductive astep :=
+| AOffer (round : list (N * N))   (* a HandleAssignSplits call tries to complete *)
+| ATake.                          (* the loop's splitsWereAssigned case *)
+
+Record astate := mkA {
+  slot : option (list (N * N));
+  acked : list (list (N * N));      (* rounds whose call returned nil, in that order *)
+  delivered : list (list (N * N))   (* rounds given to reader.AssignSplits, in that order *)
+}.
+
+Definition a_init := mkA None [] [].
+
+Definition a_step (st : astate) (x : astep) : astate :=
+  match x, slot st with
+  | AOffer r, None => mkA (Some r) (acked st ++ [r]) (delivered st)
+  | AOffer _, Some _ => st                                   (* still parked: not acknowledged *)
+  | ATake, Some r => mkA None (acked st) (delivered st ++ [r])
+  | ATake, None => st
+  end.
+
+Definition a_run (steps : list astep) : astate := fold_left a_step steps a_init.
